@@ -5,6 +5,10 @@
 static const uint32_t table32[2] = {0x01020304u, 0xA1B2C3D4u};
 static const uint16_t table16[2] = {0x0102u, 0xFFFEu};
 struct lp { uint16_t len; const uint8_t* p; };
+/* small structures passed and returned by value travel as literal aggregates ({ i64, i64 }) in the IR */
+typedef struct { uint32_t a; uint16_t b; uint16_t c; uint64_t d; } Agg;
+static __attribute__((noinline)) Agg agg_make(uint32_t a, uint16_t b, uint64_t d) { Agg s = { a, b, (uint16_t)~b, d }; return s; }
+static __attribute__((noinline)) uint64_t agg_sum(Agg s) { return (uint64_t)s.a + s.b + s.c + s.d; }
 uint64_t w_selftest(uint8_t* buf)
 {
     uint64_t bad = 0;
@@ -27,5 +31,12 @@ uint64_t w_selftest(uint8_t* buf)
 #if __BYTE_ORDER__ != __ORDER_BIG_ENDIAN__
     bad |= 1024;
 #endif
+    {
+        Agg g = agg_make(0x01020304u, 0x0506, 0x1112131415161718ull);
+        Agg* pg = (Agg*)(void*)(buf + 16);
+        *pg = g;
+        if (buf[16] != 1 || buf[19] != 4 || buf[20] != 5 || buf[21] != 6 || buf[22] != 0xFA || buf[24] != 0x11 || buf[31] != 0x18 ||
+            agg_sum(*pg) != 0x01020304ull + 0x0506 + 0xFAF9 + 0x1112131415161718ull) bad |= 2048;
+    }
     return bad;
 }
